@@ -61,8 +61,12 @@ def parse(outp: str):
         v = "not_confirmed"
     elif "unable to meet precondition" in low:
         v = "unable_to_meet_precondition"
-    elif re.search(r": error: ", msg):
+    elif re.search(r": error: false when calling", msg):
         v = "counterexample"
+    elif re.search(r": error: ", msg):
+        # an exception escaped the harness (e.g. the function under test changed its signature):
+        # that is a harness problem, never a finding
+        v = "harness_exception"
     elif msg == "":
         v = "no_output"
     else:
